@@ -50,6 +50,15 @@ func (p Params) Int(key string) (val int) {
 	return
 }
 
+// clone returns a copy of the Params
+func (p Params) clone() Params {
+	np := make(Params, len(p))
+	for k, v := range p {
+		np[k] = v
+	}
+	return np
+}
+
 /*************************************************************
  * Route definition
  *************************************************************/
@@ -332,7 +341,7 @@ func (r *Route) copyWithParams(ps Params) *Route {
 	var nr = *r
 	nr.regex = nil
 	nr.matches = nil
-	nr.params = ps
+	nr.params = ps.clone()
 
 	return &nr
 }
